@@ -230,6 +230,7 @@ class Sim(object):
         self.stall_plan = {}     # role -> [(thread-local step, duration)]
         self.stalls_fired = 0
         self.in_event = False
+        self.step_triggers = []  # [thread role substring, thread-local step, callback] fired once (event context rules apply)
         self._gap_is_skip = True
         self._line_countdown = self._draw_line_gap()
         self.listeners_on_exc = []
@@ -507,7 +508,30 @@ class Sim(object):
             return
         self._reschedule("sync")
 
+    def add_step_trigger(self, role_part, steps_from_now, cb):
+        """Fire cb() (event-context rules: no simulator primitives) when the
+        first live thread whose role contains role_part has executed
+        steps_from_now more steps."""
+        for t in self.threads:
+            if role_part in t.role and t.state not in (DONE, NEW):
+                self.step_triggers.append([t, t.steps + steps_from_now, cb])
+                if t.stall_plan is None:
+                    t.stall_plan = []
+                t.stall_plan = t.stall_plan or [(1 << 60, 0.0)]   # make the per-step hook active
+                return True
+        return False
+
     def _maybe_stall(self, t):
+        if self.step_triggers:
+            for trg in list(self.step_triggers):
+                if trg[0] is t and t.steps >= trg[1]:
+                    self.step_triggers.remove(trg)
+                    self.log("trigger", t.role)
+                    self.in_event = True
+                    try:
+                        trg[2]()
+                    finally:
+                        self.in_event = False
         """Stalled-thread fault: the OS deschedules this thread for a while."""
         sp = t.stall_plan
         while sp and t.steps >= sp[0][0]:
